@@ -502,13 +502,21 @@ def perdoc_families(repo, col):
     # shape:  if isinstance(value, type) and issubclass(value, plasTeX.<Fam>): value = type(value.__name__, (value,), {...})
     for n in ast.walk(imp):
         if isinstance(n, ast.If):
-            fam = None
-            for c in ast.walk(n.test):
-                if isinstance(c, ast.Call) and isinstance(c.func, ast.Name) and c.func.id == 'issubclass' and len(c.args) == 2:
-                    d = _dotted(c.args[1])
-                    if d:
-                        fam = d[-1]
-            if fam is None:
+            # exactly `isinstance(value, type) and issubclass(value, plasTeX.<Fam>)`: any further condition would make only part
+            # of the family per-document, which this translator does not try to describe (then nothing is recognised)
+            t = n.test
+            if not (isinstance(t, ast.BoolOp) and isinstance(t.op, ast.And) and len(t.values) == 2):
+                continue
+            a, b = t.values
+            if not (isinstance(a, ast.Call) and isinstance(a.func, ast.Name) and a.func.id == 'isinstance' and len(a.args) == 2
+                    and isinstance(a.args[1], ast.Name) and a.args[1].id == 'type'):
+                continue
+            if not (isinstance(b, ast.Call) and isinstance(b.func, ast.Name) and b.func.id == 'issubclass' and len(b.args) == 2
+                    and isinstance(a.args[0], ast.Name) and isinstance(b.args[0], ast.Name) and a.args[0].id == b.args[0].id):
+                continue
+            d = _dotted(b.args[1])
+            fam = d[-1] if d else None
+            if fam is None or n.orelse:
                 continue
             ok = False
             for st in n.body:
